@@ -118,6 +118,58 @@ def run(ctx):
                 rec["profile"] = prof
                 rec["ordering_text"] = order_text(orders[rec["ord"] - 1])
                 ctx.reject(rec["id"], v, rec, signature_of(rec, v))
+    # ---- comments (rule parameter %comment, shown with add_comments) are decoration: the commented patch has the order of the plain one.
+    # Synthetic rulebooks in the style of the shipped ones: end-anchored ordering rules, several rules matching one row (weights)
+    rul = ("sysname *\nntp-service *  %comment=ntp\nstp mode *  %comment=!!question!![Y/N]!!answer!!Y!!\nstp enable  %comment=careful\n"
+           "blk *\n    x *  %comment=c1\n    y *\n    z\n")
+    order = "sysname\nntp-service\nstp mode rstp$\nstp enable$\nstp\nblk *\n    z$\n    y\n    x */\\d+/$\n"
+    rows = ["sysname a", "ntp-service s1", "stp mode rstp", "stp mode mstp", "stp enable", "blk 1"]
+    kidrows = ["x 1", "x 22", "y 1", "z"]
+    comments = {"ntp-service": "ntp", "stp mode": "!!question!![Y/N]!!answer!!Y!!", "stp enable": "careful", "x": "c1"}
+    from annet.rulebook.patching import compile_patching_text
+    from annet.rulebook.deploying import compile_deploying_text
+    recs = []
+    for vendor, model in (("huawei", "Huawei CE6870"), ("cisco", "Cisco Catalyst C3750")):
+        hw = E.hwview(model, "")
+        rb = {"patching": compile_patching_text(rul, vendor), "ordering": compile_ordering_text(order, vendor), "deploying": compile_deploying_text("", vendor)}
+
+        def rcfg():
+            t = []
+            for r in rnd.sample(rows, rnd.randint(0, len(rows))):
+                kids = [{"row": k.split(), "kids": []} for k in rnd.sample(kidrows, rnd.randint(0, 4))] if r.startswith("blk") else []
+                t.append({"row": r.split(), "kids": kids})
+            return t
+
+        def strip(items):
+            out = []
+            for it in items:
+                row = " ".join(it["row"])
+                for head, c in comments.items():          # (removal commands carry their rule's comment too)
+                    if head in row and row.endswith(" " + c):
+                        row = row[:-len(c) - 1]
+                        break
+                out.append(dict(it, row=row.split(), kids=strip(it["kids"])))
+            return out
+        for _ in range(400 if quick else 8000):
+            o, n = rcfg(), rcfg()
+            try:
+                pre = patching.make_pre(patching.make_diff(cases.tree(o), cases.tree(n), rb, []))
+                pt = pt_json(patching.make_patch(pre, rb, hw, False))
+                ptc = strip(pt_json(patching.make_patch(pre, rb, hw, True)))
+            except Exception as e:
+                ctx.skip("comments tier: annet raised %s" % type(e).__name__)
+                continue
+            recs.append({"id": "comments-%s-%d" % (vendor, len(recs)), "kind": "comments", "pt": pt, "ptc": ptc, "old": o, "new": n})
+            if len(pt) >= 2:
+                ctx.nontrivial(json.dumps(["comments", vendor, o, n]))
+    ctx.count(len(recs))
+    aux0 = ctx.scratch + "/aux_empty0.json"
+    json.dump({"rbs": [], "ords": []}, open(aux0, "w"))
+    verd = ctx.judge("trace/Trace_Order.tla", "trace/Trace.cfg", [{k: v for k, v in r.items() if k not in ("old", "new")} for r in recs],
+                     env={"AUX_FILE": aux0}, shards=8, name="Trace_Order[comments]")
+    for rec in recs:
+        if verd[rec["id"]][0] != "ok":
+            ctx.reject(rec["id"], verd[rec["id"]][0], rec, None)
     # ---- shipped *.order files: independence of unrelated lines (metamorphic), order_config laws on corpus trees
     from annet import api
     from annet.vendors import registry_connector
